@@ -180,5 +180,10 @@ class AsyncJunosDriver(AsyncNetworkDriver):
             N/A
 
         """
-        await self.send_configs(["rollback 0", "exit"])
+        # roll back in the configuration session (shared, exclusive or private) the configs were sent
+        # in; without the privilege level send_configs would leave that session for "configuration"
+        privilege_level = self._current_priv_level.name
+        if not privilege_level.startswith("configuration"):
+            privilege_level = ""
+        await self.send_configs(["rollback 0", "exit"], privilege_level=privilege_level)
         self._current_priv_level = self.privilege_levels["exec"]
